@@ -2,15 +2,17 @@
   Drv/Hyps.lean — line-protocol request evaluating the theorems' hypotheses on the session grammar:
 
     HY <which>        which = g (the grammar last sent with `G`) | og (its optimized form, after `O`)
-      -> "wf=<b> closed=<b> shape=<b> skip=<b> eoi=<b> soifree=<b>"     b = 1 | 0
+      -> "wf=<b> closed=<b> shape=<b> skip=<b> eoi=<b> soifree=<b> optwf=<b>"     b = 1 | 0
 
   `wf` is `WF.wellFormed` (hypothesis of the termination theorems C07.parse_terminates / parse_total),
+  `optwf` is `OptS.wfCheck` (hypothesis of C02.optimizer_sound, meaningful on the un-optimized grammar),
   `closed`/`shape`/`skip`/`eoi` are `closedB`/`genShapeB`/`skipTotalB`/`onlyEOIB` (hypotheses of
   run_good, run_gen, gen_no_exc_*).  The harness records for how many grammars of a run each holds,
   i.e. on which part of the explored grammars the theorems speak.
 -/
 import PestModel.Hyps
 import PestModel.WF
+import PestModel.OptHyps
 import PestModel.Drv.Core
 
 open Pest
@@ -20,7 +22,7 @@ namespace Drv
 def bit (b : Bool) : String := if b then "1" else "0"
 
 def encHyps (g : Grammar) : String :=
-  s!"wf={bit (WF.wellFormed g)} closed={bit (C07.closedB g)} shape={bit (C07.genShapeB g)} skip={bit (C07.skipTotalB g)} eoi={bit (C07.onlyEOIB g)} soifree={bit (soiFreeG g)}"
+  s!"wf={bit (WF.wellFormed g)} closed={bit (C07.closedB g)} shape={bit (C07.genShapeB g)} skip={bit (C07.skipTotalB g)} eoi={bit (C07.onlyEOIB g)} soifree={bit (soiFreeG g)} optwf={bit (OptS.wfCheck g)}"
 
 def handleHyps (s : Session) : Toks → Option String
   | ["HY", "g"] => some (encHyps { s.g with usets := s.usets })
